@@ -55,6 +55,9 @@ func extractValidationConstraints(field *protogen.Field, schema *base.Schema) {
 		// No specific constraints for these types
 	}
 
+	// A lower bound above the upper bound means "outside the range" to protovalidate
+	publishReversedRange(schema)
+
 	// Handle repeated field constraints
 	if field.Desc.IsList() {
 		applyRepeatedConstraints(fieldConstraints, schema)
@@ -69,6 +72,47 @@ func extractValidationConstraints(field *protogen.Field, schema *base.Schema) {
 	// Note: Required is handled at the message level, not here
 	// This is a marker for the parent message to add this field to required[]
 	_ = fieldConstraints.GetRequired()
+}
+
+// publishReversedRange rewrites a numeric lower bound that lies above the upper bound.
+// protovalidate reads such a pair as a reversed range: {gt: 10, lt: 5} accepts values
+// greater than 10 or less than 5. Published as minimum/maximum keywords the pair would
+// accept no value at all, so it is published as the negation of the excluded interval
+// (with the strictness of each bound flipped): not: {minimum: 5, maximum: 10}.
+func publishReversedRange(schema *base.Schema) {
+	var lower, upper *float64
+	lowerExclusive, upperExclusive := false, false
+	switch {
+	case schema.Minimum != nil:
+		lower = schema.Minimum
+	case schema.ExclusiveMinimum != nil && schema.ExclusiveMinimum.IsB():
+		lower, lowerExclusive = &schema.ExclusiveMinimum.B, true
+	}
+	switch {
+	case schema.Maximum != nil:
+		upper = schema.Maximum
+	case schema.ExclusiveMaximum != nil && schema.ExclusiveMaximum.IsB():
+		upper, upperExclusive = &schema.ExclusiveMaximum.B, true
+	}
+	if lower == nil || upper == nil || !(*upper < *lower) {
+		return
+	}
+
+	excluded := &base.Schema{}
+	if upperExclusive {
+		excluded.Minimum = upper
+	} else {
+		excluded.ExclusiveMinimum = &base.DynamicValue[bool, float64]{N: 1, B: *upper}
+	}
+	if lowerExclusive {
+		excluded.Maximum = lower
+	} else {
+		excluded.ExclusiveMaximum = &base.DynamicValue[bool, float64]{N: 1, B: *lower}
+	}
+
+	schema.Minimum, schema.ExclusiveMinimum = nil, nil
+	schema.Maximum, schema.ExclusiveMaximum = nil, nil
+	schema.Not = base.CreateSchemaProxy(excluded)
 }
 
 // applyStringConstraints applies string validation constraints to the schema.
